@@ -69,14 +69,7 @@ def chain_cases(draw):
     kinds = [draw(st.sampled_from(SCALAR_STEPS if ncomp == 1 else VECTOR_STEPS)) for _ in range(nsteps)]
     wmode = draw(st.sampled_from(["none", "none", "given"]))
     if wmode == "given":
-        kinds = [k if k != "blockreduce" else "blockmean" for k in kinds]
         kinds = [k if k != "chain_block" else "chain" for k in kinds]
-    # BlockMean always outputs weights; a later BlockReduce(np.mean/np.median) could not take them
-    seen_bm = False
-    for i, k in enumerate(kinds):
-        if seen_bm and k == "blockreduce":
-            kinds[i] = "blockmean"
-        seen_bm = seen_bm or k == "blockmean"
     # a block reduction as the very last step predicts nothing: make sure at least one step can predict
     if all(k in ("blockreduce", "blockmean") for k in kinds):
         kinds.append("trend" if ncomp == 1 else "vector")
@@ -90,8 +83,13 @@ def chain_cases(draw):
             no_blockreduce(sub)
 
     # weights flow from the input or from any BlockMean: later BlockReduce(np.mean/np.median) steps could not take them
+    # (a top-level BlockReduce may use numpy.average instead: it takes the weights, consumes them and passes none on)
     flowing = wmode == "given"
     for sp in steps:
+        if flowing and sp["kind"] == "blockreduce" and draw(st.booleans()):
+            sp["reduction"] = "average"
+            flowing = False
+            continue
         if flowing:
             no_blockreduce(sp)
         if sp["kind"] == "chain":
